@@ -678,6 +678,12 @@ func (s *SecureChannel) open(ctx context.Context, instance *channelInstance, req
 	defer func() {
 		if s.openingInstance == nil || s.openingInstance.state != channelActive {
 			debug.Printf("uasc %d: failed to open a new secure channel", s.c.ID())
+			if requestType == ua.SecurityTokenRequestTypeRenew && s.openingInstance != nil {
+				// The OPN request consumed sequence numbers of the channel. The old
+				// token stays in use (renew holds its lock), so its counter has to
+				// move past them or the next chunk repeats the OPN's number.
+				instance.sequenceNumber = s.openingInstance.sequenceNumber
+			}
 		}
 		s.openingInstance = nil
 	}()
